@@ -49,6 +49,21 @@ def names_profile(env):
     return p
 
 
+def fnames_profile(env):
+    """uninterpreted functions whose names are those of the DAG printer's let variables (functions and
+    constants share one name space in SMT-LIB), applied below shared sub-terms"""
+    p = Profile("fnames", env)
+    m = p.m
+    FII = ("Fun", INT, (INT,))
+    f0, f1 = p.sym(".def_0", FII), p.sym(".def_1", FII)
+    p.leaf(INT, p.sym("x", INT), m.Int(0))
+    p.op("app0", [INT], INT, lambda m, a: m.Function(f0, [a]))
+    p.op("app1", [INT], INT, lambda m, a: m.Function(f1, [a]))
+    p.op("plus", [INT, INT], INT, lambda m, a, b: m.Plus(a, b))
+    p.op("dup", [INT], BOOL, lambda m, a: m.Equals(m.Plus(a, a), m.Times(a, a)))
+    return p
+
+
 def consts_profile(env):
     p = Profile("consts", env)
     m = p.m
@@ -334,6 +349,8 @@ def parts(ctx):
     A(dict(name="uf-d2", profile=P.uf_profile, depth=2, shards=8, dom={INT: (0, 1, 2)}, max_new=mx))
     A(dict(name="quant-d2", profile=P.quant_profile, depth=2, shards=16, dom={INT: (0, 1)}, max_new=1))
     A(dict(name="names-d2", profile=names_profile, depth=2, shards=16, dom={INT: (0, 1)}, max_new=1))
+    A(dict(name="fnames-d3", profile=fnames_profile, depth=3, shards=8, dom={INT: (0, 1)},
+           top_ops=lambda o: o.name == "dup"))
     A(dict(name="consts-d2", profile=consts_profile, depth=2, shards=8, max_new=1,
            dom={INT: (0, 3), REAL: (Fraction(0), Fraction(1, 2)), STRING: ("", 'a"'),
                 ("BV", 33): (0, 5, 2 ** 32 + 1), ("BV", 36): (0, 2 ** 35 + 9), ("BV", 64): (1, 2 ** 63),
